@@ -316,7 +316,20 @@ def run(ctx):
     ctx.floor("R12.5", "arithmetic and cast steps in the weight's data slice", n5, 5)
     # ------------------------------------------------------------------ R12.3
     n3 = 0
-    gs = [a for a in F.adts.values() if a["crate"] == W and any(f["name"] == "sample_rate" and f["ty"] == "f32" for v in a["variants"] for f in v["fields"])]
+    # slot: the per-group rate field = the f32 field of a crate-local struct that an f32-returning method of a sampler hands back (and
+    # that then becomes the rate passed to format_with_sample_rate); identified by role, whatever it is called
+    RF, rf_adt = None, None
+    for b_ in F.all_bodies(W):
+        if b_.d.get("output") != "f32" or "::tests::" in b_.path or not b_.path.startswith(W + "::sample"):
+            continue
+        for i_ in b_.live_blocks():
+            for s_ in b_.stmts(i_):
+                if s_["k"] == "assign" and s_["lhs"]["l"] == 0 and s_["rv"]["k"] == "use":
+                    pl = s_["rv"]["op"].get("copy") or s_["rv"]["op"].get("move")
+                    if pl and pl.get("p") and pl["p"][-1][0] == "f" and len(pl["p"][-1]) > 4 and pl["p"][-1][4] == "f32" and pl["p"][-1][3].startswith(W + "::"):
+                        if any(len(b_.d.get("inputs") or []) >= 2 for _ in [0]):
+                            RF, rf_adt = pl["p"][-1][2], pl["p"][-1][3]
+    gs = [a for a in F.adts.values() if a["crate"] == W and a["def"] == rf_adt]
     ctx.floor("R12.3", "group-state types holding a sample_rate", len(gs), 1)
     for adt in gs:
         for b in F.all_bodies(W):
@@ -329,13 +342,13 @@ def run(ctx):
                         continue
                     ops = []
                     fe = [e for e in s["lhs"].get("p", []) if e[0] == "f"]
-                    if fe and fe[-1][2] == "sample_rate" and fe[-1][3] == adt["def"]:
+                    if fe and fe[-1][2] == RF and fe[-1][3] == adt["def"]:
                         rv = s["rv"]
                         ops = [rv.get("op")] if rv["k"] == "use" else [None]
                     elif s["rv"]["k"] == "agg" and s["rv"].get("adt") == adt["def"]:
                         flds = s["rv"].get("fields") or []
-                        if "sample_rate" in flds:
-                            ops = [s["rv"]["ops"][flds.index("sample_rate")]]
+                        if RF in flds:
+                            ops = [s["rv"]["ops"][flds.index(RF)]]
                     for op in ops:
                         n3 += 1
                         pr = pr or Prov(b)
@@ -356,7 +369,7 @@ def run(ctx):
                                     for s2 in cb.stmts(j):
                                         if s2["k"] == "assign" and s2["rv"]["k"] == "agg" and s2["rv"].get("adt") == adt["def"]:
                                             f2 = s2["rv"].get("fields") or []
-                                            o2 = cpr.operand(s2["rv"]["ops"][f2.index("sample_rate")])
+                                            o2 = cpr.operand(s2["rv"]["ops"][f2.index(RF)])
                                             if ("call", cs.bb) not in o2:
                                                 found = True
                                 if not found:
@@ -390,7 +403,7 @@ def run(ctx):
             if "::tests::" in b.path:
                 continue
             stores = [i for i in b.live_blocks() for s in b.stmts(i) if s["k"] == "assign" and any(
-                e[0] == "f" and e[2] == "sample_rate" and e[3] == adt["def"] for e in s["lhs"].get("p", []))]
+                e[0] == "f" and e[2] == RF and e[3] == adt["def"] for e in s["lhs"].get("p", []))]
             if not stores:
                 continue
             # loops over the group map whose body stores a rate: every iteration must store one
@@ -459,7 +472,7 @@ def run(ctx):
             if cb.kind != "Closure" or "::tests::" in cb.path:
                 continue
             stores = [i for i in cb.live_blocks() for s in cb.stmts(i) if s["k"] == "assign" and any(
-                e[0] == "f" and e[2] == "sample_rate" and e[3] == adt["def"] for e in s["lhs"].get("p", []))]
+                e[0] == "f" and e[2] == RF and e[3] == adt["def"] for e in s["lhs"].get("p", []))]
             if not stores:
                 continue
             for pb in F.all_bodies(W):
